@@ -300,12 +300,13 @@ PROPS["C05"]["level_note"] = "Partial: the parallel abort path is covered by tra
 PROPS["C05"]["stated_not_proved"] = ["par_cutoff_bounds (parallel part): evaluated by phi on every scheduled run with a cutoff"]
 
 PROPS["C08"] = dict(
-    modules=["DdoModel.Props.C08"],
-    theorems=["Ddo.C08.finalize_cutset", "Ddo.C08.cutset_exact", "Ddo.C08.cutset_progress", "Ddo.C08.cutset_empty_of_exact", "Ddo.compile_wf"],
-    stated_not_proved=["(iii) cutset_ub_valid and (iv) cutset_cover on Mdd.lean (design-time proofs exist on an abstract layered diagram: Locb.lean, Front.lean of DESIGN.md appendix B): evaluated by phi on every explored compilation",
-                       "pooled diagram: (ii) is false with long arcs in the current code (open known finding D5)"],
-    level_text="For the clean diagram model, both cut-set kinds (last exact layer and frontier), any cache / dominance configuration, both admissible resolutions of the exact-best-path tie: (i) every sub-problem handed out by the cut-set is exact - genuinely reached from the problem root by its path (root path followed by the decisions of its best-arc chain) with exactly its value and depth - and (ii) lies strictly deeper than the sub-problem the diagram was compiled for; the cut-set is empty when no layer was squashed. Proved through two invariants of the whole compilation loop (arcs only between consecutive layers; all nodes exact up to the last exact layer, which has index >= 1 in a relaxed compilation) and a preservation relation for the bottom-up passes (975 + 1150 lines of Lean). Clauses (iii) bound validity and (iv) coverage are evaluated against the exact value-to-go on every explored compilation. For the pooled diagram the checks rediscover D5 (clause (ii) fails with long arcs), recorded as an open known finding.",
-    level_note="Partial: (iii) and (iv) are evaluated (phi), not proved on this model; pooled by correspondence + phi with an open known finding. (iii) is evaluated only for compilations that received no dominance verdict (a child pruned in favour of a dominator of the same layer is soundly missing from the local bound - decision recorded in DESIGN.md). Hypothesis NoClamp. MddCutset.lean was produced by a delegated proof session, checked by the same lake build / axiom audit.",
+    modules=["DdoModel.Props.C08", "DdoModel.Props.C08b"],
+    theorems=["Ddo.C08.finalize_cutset", "Ddo.C08.cutset_exact", "Ddo.C08.cutset_progress", "Ddo.C08.cutset_empty_of_exact", "Ddo.compile_wf",
+              "Ddo.C08.cutset_ub_valid", "Ddo.C08.cutset_cover", "Ddo.Bounds.computeCutset_frontier_mem", "Ddo.Bounds.compile_lbmax_cutset"],
+    stated_not_proved=["pooled diagram: (ii) is false with long arcs in the current code (open known finding D5); (i), (iii), (iv) for the pooled model by correspondence + phi only",
+                       "(iii) / (iv) with a threshold cache or a dominance rule (the property is about diagrams compiled in isolation)"],
+    level_text="All four clauses are theorems about the clean diagram model, for both cut-set kinds (last exact layer and frontier), both admissible resolutions of the exact-best-path tie, any cutoff position: (i) every sub-problem handed out by the cut-set is exact - genuinely reached from the problem root by its path (root path followed by the decisions of its best-arc chain) with exactly its value and depth - and (ii) lies strictly deeper than the sub-problem the diagram was compiled for; the cut-set is empty when no layer was squashed (any cache / dominance configuration for (i), (ii)). For a relaxed compilation in isolation of a well-formed model (Potential, RubOk, MergeOk, AttMerge, NoClamp): (iii) the ub recorded for a cut-set sub-problem - min(value + rub, value + local bound, best value of the diagram), exactly the field the code computes - is at least the value of the best completion through it whenever that completion beats the incumbent, and (iv) if the optimum of the root sub-problem beats both the incumbent and the best exact value found, some cut-set sub-problem still carries it. Proved through invariants of the whole compilation loop (arcs between consecutive layers; exactness up to the last exact layer; a liveness invariant with potential-preserving paths for the bottom-up local bounds; 975 + 1150 + 2430 lines of Lean), with kernel-checked instances on which the bounds of (iii) are tight. For the pooled diagram the checks rediscover D5 (clause (ii) fails with long arcs), recorded as an open known finding.",
+    level_note="(iii) / (iv) are stated in potential form (H: value of the best completion of a state at a depth) under the same hypotheses as C06.relaxed_ub plus exactness of the root sub-problem (Reach); the driver additionally evaluates all four clauses against the exact value-to-go on every explored compilation. (iii) is evaluated only for compilations that received no dominance verdict (a child pruned in favour of a dominator of the same layer is soundly missing from the local bound - decision recorded in DESIGN.md 11.3). Pooled model: correspondence + phi with an open known finding. MddCutset.lean / MddBounds.lean were produced by delegated proof sessions, checked by the same lake build / axiom audit.",
     engines=MDD_ENGINES, trusted_base=MDD_TB,
     assumptions=["NoClamp", "the root sub-problem is exact (Reach)"],
     rule=MDD_RULE + "; pooled diagrams additionally with long arcs", trivial_tags=MDD_TRIVIAL,
